@@ -9,8 +9,42 @@ def num(x):
     return isinstance(x, (int, float)) and not isinstance(x, bool) and x == x and abs(x) != float("inf")
 
 
+_calls = [0]
+_sigcache = {}
+
+
+def _as_keywords(fn, a, kw):
+    """the same call with its trailing positional arguments passed by name (every monitor reads arguments through ctx.arg,
+    which serves both forms)"""
+    import inspect
+
+    key = getattr(fn, "__func__", fn)
+    names = _sigcache.get(key)
+    if names is None:
+        try:
+            ps = list(inspect.signature(fn).parameters.values())
+            names = [p.name for p in ps] if all(p.kind == p.POSITIONAL_OR_KEYWORD for p in ps) else False
+        except (TypeError, ValueError):
+            names = False
+        _sigcache[key] = names
+    if not names or len(a) > len(names) or len(a) < 2:
+        return a, kw
+    keep = 1 + (_calls[0] // 9) % (len(a) - 1)  # at least the first argument stays positional
+    extra = dict(zip(names[keep:len(a)], a[keep:]))
+    if any(k in kw for k in extra):
+        return a, kw
+    return a[:keep], dict(kw, **extra)
+
+
 def call(fn, *a, **kw):
-    """Drive a real call; the monitors judge it, the driver does not care."""
+    """Drive a real call; the monitors judge it, the driver does not care.  Every ninth call passes its trailing arguments by
+    keyword instead of by position; every eleventh passes whole-number float arguments as int."""
+    _calls[0] += 1
+    if _calls[0] % 9 == 0 and a:
+        a, kw = _as_keywords(fn, a, kw)
+    elif _calls[0] % 11 == 0 and a:
+        # whole-number times given as int rather than float (a caller writing crop(1, 2) instead of crop(1.0, 2.0))
+        a = tuple(int(x) if type(x) is float and x == int(x) and abs(x) < 1e9 else x for x in a)
     try:
         return fn(*a, **kw)
     except Exception:
